@@ -14,6 +14,7 @@ RULE = ("single terms: all 63 non-identity Pauli strings on {0,1,2} plus gapped 
         "repetition) of <= 3 terms from a non-commuting pool x steps {1,2,3} x times: structural equality with the concatenation of per-term circuits "
         "(symbolic time) and matrix equality with the ordered product of closed-form exponentials; derivatives: operator identity "
         "sum_k f_k U_k^dagger O U_k = d/dt[U^dagger O U] for EVERY Pauli string O on the register. non-trivial = term acts on >= 2 qubits or list has >= 2 non-commuting terms")
+RULE += ' Round 5: single terms touching qubits 8 and 9 on 9-10 qubit registers.'
 ASSUMPTIONS = ["C01 (a circuit is the ordered product of its operations) lets the structural check extend the per-term all-t verdict to sums", "derivative identity is checked at listed times only (sums of incommensurate frequencies are not periodic)",
                "terms with coefficient exactly 0 are outside the derivative alphabet (the parameter shift pi/(4r) divides by zero)"]
 BOUNDS = {"quick": {"term_qubits": 3, "sum_terms": 2, "steps": [1, 2, 3], "times": 2}, "thorough": {"term_qubits": 4, "sum_terms": 3, "steps": [1, 2, 3, 4], "times": 3}}
